@@ -115,7 +115,7 @@ def cases(tier, seed):
                 continue
             seen.add(dig)
             out.append(dict(scenario=name, k=lab["k"], point=lab["point"], op=lab["op"], path=lab["path"],
-                            torn=lab.get("bytes"), fsdigest=dig, committed=dig in committed,
+                            torn=lab.get("bytes"), lost=bool(lab.get("lost")), fsdigest=dig, committed=dig in committed,
                             n_events=len(events),
                             double=(tier == "thorough" and name in ("all-s202", "all-s312"))))
     out.sort(key=lambda c: (c["k"], c["scenario"]))
@@ -160,6 +160,8 @@ def _window(case, events):
         return p
     if case["point"] == "torn":
         return "torn-write:%s" % gen(ev["path"])
+    if case["point"] == "unflushed":
+        return "unflushed-buffer-lost:before-%s(%s)" % (ev["op"], gen(ev["path"]))
     if openfile is not None:
         return "inside-open(%s,%s)" % (gen(openfile[0]), openfile[1])
     return "before-%s(%s)" % (ev["op"], gen(ev["path"]))
@@ -175,7 +177,7 @@ def run(case):
         if name not in _RELOG:
             _RELOG[name] = _record(name)
         events, ref, _ = _RELOG[name]
-    fs = fsfault.state_at(events, case["k"], torn_bytes=case["torn"])
+    fs = fsfault.state_at(events, case["k"], torn_bytes=case["torn"], lost=bool(case.get("lost")))
     if fsfault.fs_digest(fs) != case["fsdigest"]:
         raise RuntimeError("crash state not reproducible")
     window = _window(case, events)
